@@ -8,7 +8,7 @@ import z3
 
 from . import core
 
-BUDGET = {"quick": dict(api_ms=3000, cli_s=6), "thorough": dict(api_ms=30000, cli_s=60)}
+BUDGET = {"quick": dict(api_ms=3000, cli_s=10), "thorough": dict(api_ms=30000, cli_s=60)}
 
 
 import threading
@@ -196,6 +196,22 @@ def check_vc(pc, goal, tier="quick", want_model=True, extra=(), hints=None, loca
     if r["status"] == "unsat":
         r["time"] = time.time() - t0
         return r
+    # 0b. string VCs: the whole (sliced) VC through cvc5 and z3-new side by side for a CPU second
+    allt = z3.And(*(list(sp) + [goal])) if sp else goal
+    if _uses_strings(allt):
+        try:
+            s0 = z3.Solver()
+            for t in sp:
+                s0.add(t)
+            s0.add(z3.Not(goal))
+            for t in extra:
+                s0.add(t)
+            r = _cli_parallel("(set-logic ALL)\n" + s0.to_smt2(), 1)
+            if r["status"] == "unsat":
+                r["time"] = time.time() - t0
+                return r
+        except Exception:
+            pass
     if local is not None and len(local) < len(pc):
         quick_h = dict(hints)
         quick_h["cli_s"] = min(hints.get("cli_s", 6), 5)
@@ -279,7 +295,10 @@ def _check_vc(pc, goal, tier="quick", want_model=True, extra=(), hints=None):
         # 1. cvc5 briefly (it decides most word-equation VCs in milliseconds)
         try:
             text = "(set-logic ALL)\n" + s.to_smt2()
-            res = _cli(text, min(b["cli_s"], 3), only=("cvc5-cli",))
+            if hints.get("only") == "cvc5":
+                res = _cli(text, min(b["cli_s"], 3), only=("cvc5-cli",))
+            else:
+                res = _cli_parallel(text, min(b["cli_s"], 3))
             if res["status"] == "unsat" or (hints.get("only") == "cvc5" and b["cli_s"] <= 3):
                 res["time"] = time.time() - t0
                 return res
@@ -304,16 +323,83 @@ def _check_vc(pc, goal, tier="quick", want_model=True, extra=(), hints=None):
         text = text or ("(set-logic ALL)\n" + s.to_smt2())
     except Exception:
         return {"status": "unknown", "backend": "z3-api", "time": dt, "reason": s.reason_unknown()}
-    if strings and b["cli_s"] > 3:
-        res = _cli(text, b["cli_s"], only=("cvc5-cli",))
-        if res["status"] == "unsat":
-            res["time"] = time.time() - t0
-            return res
-    res = _cli(text, b["cli_s"], skip=("cvc5-cli",) if strings else (), want_model=strings)
+    if strings:
+        res = _cli_parallel(text, b["cli_s"], names=("cvc5-cli", "z3-new-cli", "z3-4.8-cli"), want_model=True)
+    else:
+        res = _cli(text, b["cli_s"], want_model=False)
     res["time"] = time.time() - t0
     if res["status"] == "unknown":
         res["reason"] = s.reason_unknown()
     return res
+
+
+def _cpu_limit(seconds):
+    def fn():
+        import resource
+        resource.setrlimit(resource.RLIMIT_CPU, (int(seconds) + 1, int(seconds) + 2))
+    return fn
+
+
+def _cli_parallel(text, cpu_s, names=("cvc5-cli", "z3-new-cli"), want_model=False):
+    """the CLI back ends side by side on the same SMT-LIB text; the first definite answer wins.  Budgets are CPU
+    seconds per solver (RLIMIT_CPU) with a generous wall-clock cap, so that a verdict does not depend on how busy the
+    machine is."""
+    d = tempfile.mkdtemp(prefix="pyvc_smt_")
+    procs = []
+    try:
+        path = os.path.join(d, "q.smt2")
+        with open(path, "w") as fh:
+            fh.write(text)
+        wall = cpu_s * 6 + 10
+        cmds = {"z3-new-cli": ["z3-new", "-smt2", "-T:%d" % wall, path],
+                "cvc5-cli": ["cvc5", "--strings-exp", "--tlimit=%d" % (wall * 1000), path],
+                "z3-4.8-cli": ["/usr/bin/z3", "-smt2", "-T:%d" % wall, path]}
+        for name in names:
+            exe = cmds[name][0]
+            if not (shutil.which(exe) or os.path.exists(exe)):
+                continue
+            out = open(os.path.join(d, name + ".out"), "w+")
+            p = subprocess.Popen(cmds[name], stdout=out, stderr=subprocess.DEVNULL, preexec_fn=_cpu_limit(cpu_s))
+            procs.append((name, p, out))
+        t_end = time.time() + wall + 5
+        live = list(procs)
+        while live and time.time() < t_end:
+            for item in list(live):
+                name, p, out = item
+                if p.poll() is None:
+                    continue
+                live.remove(item)
+                out.seek(0)
+                first = (out.readline() or "").strip()
+                if first == "unsat":
+                    return {"status": "unsat", "backend": name}
+                if first == "sat":
+                    mt = ""
+                    if want_model:
+                        try:
+                            with open(path, "a") as fh:
+                                fh.write("\n(get-model)\n")
+                            p2 = subprocess.run(cmds[name], capture_output=True, text=True, timeout=wall,
+                                                preexec_fn=_cpu_limit(cpu_s * 2))
+                            mt = p2.stdout[:20000]
+                        except Exception:
+                            pass
+                    return {"status": "sat", "backend": name, "model": None, "model_text": mt}
+            time.sleep(0.01)
+        return {"status": "unknown", "backend": "portfolio"}
+    finally:
+        for name, p, out in procs:
+            if p.poll() is None:
+                try:
+                    p.kill()
+                except OSError:
+                    pass
+            try:
+                p.wait(timeout=5)
+            except Exception:
+                pass
+            out.close()
+        shutil.rmtree(d, ignore_errors=True)
 
 
 def _cli(text, timeout_s, only=None, skip=(), want_model=False):
